@@ -2,12 +2,15 @@
 (* SCOPE. The transition system has client threads that issue one request each and wait for it - with or without an expiry (LExpire: the
    clock passes a request's expiry; a reply dispatched afterwards is dropped and the waiter gives up: theorems c13_late_* below; the
    timing of expiries is C15's) -, timeouts that end a poll or a condition wait, background serving threads, and a peer that answers with by-value replies in any
-   order; dispatching a reply is one step. Incoming requests of the peer and exception replies are exercised by the harness only.
+   order; dispatching a reply is one step. An incoming REQUEST of the peer is, for every other thread, a message whose issuer is not looking (it is
+   read under the lock, the lock is released and the sleepers are notified before it is dispatched, its dispatch touches nobody else's result): the
+   harness maps it to an `issue` by a thread identifier that never steps again, and c13_inbound_* below prove what that reading needs (proofs/ServeI.v).
+   Exception replies are exercised by the harness only.
    Liveness: [c13_no_deadlock] is progress (some thread can step while a reply is in the stream); that every request completes is
    refuted for deadline-free waits (last theorem) and not proved otherwise. *)
    Every statement holds in every state reachable under any scheduler, any number of client threads and
    background serving threads, any order of answers by the peer, with nondeterministic timeouts. *)
-From V Require Import lib.Base model.Serve proofs.ServeP proofs.ServeF proofs.ServeTie gen.Gen_serve.
+From V Require Import lib.Base model.Serve proofs.ServeP proofs.ServeF proofs.ServeI proofs.ServeTie gen.Gen_serve.
 
 Section C13.
 Variable servers : nat -> bool.
@@ -99,6 +102,45 @@ Proof.
   rewrite (quiet_run_myseq evs s s' w Hq Hr), Hm in Hm'. inversion Hm'; subst q'. exact Hr'.
 Qed.
 Print Assumptions c13_unexpired_request_can_still_complete.
+
+(* 7. Messages nobody is waiting for - the peer's own requests, replies whose requester is not looking.
+      (a) Dispatching a message changes that message's own cell, the dispatcher's own program counter and the dispatch log; every other
+      result cell, callback, every other thread, the stream and the receive lock are untouched - however long the handler runs (the
+      dispatcher simply stays at S5 meanwhile: the lock was released and the sleepers notified before). *)
+Theorem c13_inbound_dispatch_frame : forall servers s i s' q, reach (init servers) s ->
+  tpc (thrs s i) = S5 -> hand (thrs s i) = Some q -> step LStep i s = Some s' ->
+  (forall q', q' <> q -> ready s' q' = ready s q' /\ pending s' q' = pending s q' /\ ph s' q' = ph s q' /\ late s' q' = late s q')
+  /\ (forall j, j <> i -> thrs s' j = thrs s j) /\ inbox s' = inbox s /\ holder s' = holder s /\ counter s' = counter s
+  /\ dispatched s' = dispatched s ++ [q].
+Proof. intros servers s i s' q _. apply dispatch_frame. Qed.
+Print Assumptions c13_inbound_dispatch_frame.
+(*    (b) No continuation ever needs a step of a thread that is outside serve() and not looking (`absent`: any set of such threads that
+      does not contain the waiter - the phantom issuers of the peer's requests, clients that issued asynchronously and went away): from every
+      reachable state every waiting thread can still leave wait() by its own steps, steps of threads that are inside serve() with the lock or
+      a frame in hand, and the peer's answers; the absent threads are never scheduled and are left exactly as they were. *)
+Theorem c13_inbound_absent_threads_never_needed : forall servers s w q (absent : nat -> bool), reach (init servers) s ->
+  myseq (thrs s w) = Some q -> in_loop (tpc (thrs s w)) = true ->
+  absent w = false -> (forall j, absent j = true -> outside (tpc (thrs s j)) = true) ->
+  exists evs s', ServeF.runl s evs = Some s' /\ (forall e, In e evs -> quiet (fst e))
+    /\ (forall e, In e evs -> (exists q0, fst e = LAnswer q0) \/ absent (snd e) = false)
+    /\ (forall j, absent j = true -> thrs s' j = thrs s j)
+    /\ (tpc (thrs s' w) = Returned \/ (tpc (thrs s' w) = TimedOut /\ expd s q = true)).
+Proof.
+  intros servers s w q absent R. apply no_trap_without; [exact (invA_reach _ _ R)|exact (invB_reach _ _ R)|exact (invD_reach _ _ R)].
+Qed.
+Print Assumptions c13_inbound_absent_threads_never_needed.
+(* non-vacuity: a peer request (phantom issuer 7, number 0) sits in the stream IN FRONT of client 0's reply (number 1); the background thread 1
+   reads it, releases, notifies and is still busy with its handler (S5) when client 0 takes the free lock, reads its own reply and returns;
+   thread 7 never moves *)
+Example c13_inbound_request_in_front_of_a_reply :
+  match ServeF.runl (init (fun i => Nat.eqb i 1))
+    [(LIssue, 7); (LIssue, 0); (LIssue, 1); (LAnswer 0, 0); (LAnswer 1, 0);
+     (LStep, 1); (LStep, 1); (LStep, 1); (LStep, 1); (LStep, 1);     (* B: loop test, lock, reads the peer's request, releases, notifies: now in the handler *)
+     (LStep, 0); (LStep, 0); (LStep, 0); (LStep, 0); (LStep, 0); (LStep, 0); (LStep, 0)] with   (* W: loop test, lock, reads its reply, releases, notifies, dispatches, returns *)
+  | Some s => tpc (thrs s 1) = S5 /\ hand (thrs s 1) = Some 0 /\ tpc (thrs s 0) = Returned /\ ready s 1 = true /\ tpc (thrs s 7) = LoopTest /\ dispatched s = [1]
+  | None => False
+  end.
+Proof. vm_compute. repeat split. Qed.
 (* non-vacuity: the stalled state of c13_completion_refuted_without_deadline is not a trap either - W's own poll timeout gets it out *)
 
 Theorem c13_program_is_current : Gen_serve.serve_prog = Serve.serve_prog /\ Gen_serve.call_sets_obj_before_ready = true
